@@ -205,6 +205,40 @@ reg("C18",
     "is the reproducible unit. If atheris cannot be imported the part is skipped and says so in evidence.",
     "DESIGN.md section 4, C18")
 
+reg("C19",
+    "Hypothesis rule-based state machine over read-only operation histories with a full-observation and twin-equality invariant after every step",
+    "Exploration by stateful generated-input search: machines of up to 25/50 read-only operations (rate "
+    "queries in every form incl. failing ones and absent tracks, subscripting all 10 instruments, both "
+    "time queries with valid/invalid hints and negative ticks, str/repr, ==/!=, hash, derived "
+    "attributes, bpm_events iteration/slicing, attempted attribute assignment) on a generated chart; "
+    "after every step chart == twin (checked before observing) and the full observation incl. the key "
+    "structure of instrument_tracks equals that of an untouched third parse; histories shrink as one "
+    "value; a fixed deterministic history covers every operation kind each run.",
+    "Observation walks public attributes only; the twin is never read except by ==/!=.",
+    "DESIGN.md section 4, C19")
+
+reg("C17",
+    "Hypothesis rule-based state machine over parse histories executed in fresh interpreters, with OS-scheduled and cooperatively scheduled (sys.settrace, Hypothesis-drawn schedule) thread rules, differential against fresh-interpreter baselines",
+    "Exploration by stateful generated-input search: histories over corpora of related chart texts "
+    "(variants that collide in the process-wide memo tables, invalid variants of each error class) "
+    "with sequential parses, selections and 2-4 concurrent parses under a 1 us switch interval or a "
+    "line-granular cooperative scheduler driven by a drawn schedule; every result must equal the "
+    "parse of the same text alone in a fresh interpreter (two PYTHONHASHSEEDs), repeated parses must "
+    "be ==. 144 histories quick, 2400 thorough. Schedules are sampled at line granularity only.",
+    "Workers are python -S subprocesses; a worker timeout is inconclusive (exit 2), never a violation; "
+    "failing histories are reduced greedily instead of with the Hypothesis shrinker.",
+    "DESIGN.md section 4, C17")
+
+reg("C20",
+    "exhaustive enumeration of first imports and ordered pairs plus Hypothesis-drawn import permutations, each in a fresh interpreter, against the reference order's public-name and object-identity dump",
+    "Exploration by generated programs: all 12 first imports and all 132 ordered pairs (exhaustive every "
+    "run), README-style from-imports, and 48/1100 sampled longer permutations, one fresh interpreter "
+    "each; every import must succeed and the dump of public names (type, module, qualname) and of "
+    "the identity partition must equal the reference order's.",
+    "Client programs are reduced to import orders; the remaining modules are imported canonically "
+    "after the program's prefix.",
+    "DESIGN.md section 4, C20")
+
 
 def build():
     checks = []
